@@ -503,9 +503,14 @@ type c04Outcome struct {
 }
 
 // c04RunRecv drives the real recvLoop with the scenario's writes.
-func c04RunRecv(s *c04Scenario) c04Outcome {
+func c04RunRecv(s *c04Scenario) c04Outcome { return c04RunRecvScaled(s, 1) }
+
+// c04RunRecvScaled stretches T8 and every scripted gap by the same factor: the outcome the property prescribes
+// depends only on the gap / T8 relation, so it is unchanged, while the involuntary delays a loaded machine adds
+// between two writes (which count as in-frame gaps against the real T8) shrink relative to it.
+func c04RunRecvScaled(s *c04Scenario, scale int) c04Outcome {
 	client, server := net.Pipe()
-	rec, err := hsmsss.VerifStartRecv(server, c04T8, true)
+	rec, err := hsmsss.VerifStartRecv(server, c04T8*time.Duration(scale), true)
 	if err != nil {
 		return c04Outcome{hung: true}
 	}
@@ -516,12 +521,12 @@ func c04RunRecv(s *c04Scenario) c04Outcome {
 	}()
 	for _, g := range s.segs {
 		if g.gapNs > 0 {
-			time.Sleep(time.Duration(g.gapNs))
+			time.Sleep(time.Duration(g.gapNs) * time.Duration(scale))
 		}
 		if len(g.data) == 0 {
 			continue
 		}
-		client.SetWriteDeadline(time.Now().Add(5 * time.Second))
+		client.SetWriteDeadline(time.Now().Add(5 * time.Second * time.Duration(scale)))
 		if _, err := client.Write(g.data); err != nil {
 			break // the receiver dropped the link (pipe closed)
 		}
@@ -529,7 +534,7 @@ func c04RunRecv(s *c04Scenario) c04Outcome {
 	client.Close() // end of stream: the receiver sees EOF
 	select {
 	case <-rec.Done():
-	case <-time.After(10 * time.Second):
+	case <-time.After(10 * time.Second * time.Duration(scale)):
 		server.Close()
 		return c04Outcome{events: rec.Events(), allocs: rec.Allocs(), hung: true}
 	}
@@ -901,11 +906,17 @@ func c04Recv(c *Ctx, allocSafe bool) {
 		c.Count("recv|"+s.line(), len(s.stream()) >= 4)
 		c.Stat("recv:" + s.tag)
 		kind, what, detail := check(i)
-		if kind != "" && s.timed {
-			// wall-clock scenario: confirm by two more reproductions before reporting (a loaded machine may stretch a short gap)
-			for attempt := 0; attempt < 2 && kind != ""; attempt++ {
+		if kind != "" {
+			// T8 is wall-clock time for EVERY scenario (on a loaded machine even two back-to-back writes can be more
+			// than 80 ms apart, which the receiver rightly treats as an in-frame gap): confirm by reproductions with
+			// T8 and all scripted gaps stretched x4 and x16 before reporting. (A thorough sweep under load average 60
+			// reported two such scenarios with the unscaled retries: false alarm, corrected here.)
+			for _, scale := range []int{4, 16} {
+				if kind == "" {
+					break
+				}
 				c.Stat("recv:timed-retry")
-				outs[i] = c04RunRecv(s)
+				outs[i] = c04RunRecvScaled(s, scale)
 				kind, what, detail = check(i)
 			}
 		}
